@@ -23,9 +23,9 @@ CHECKS = {
                 technique="runtime monitoring: raw column dumps of store and of concurrently loaded snapshots compared both ways with an independent replay model",
                 text="At every quiescent point of every delivered node, on the builder node after all its truncations, and inside snapshots loaded by reader threads while blocks are being processed, all canonical columns (live cells with data and data hash, tx locations, number<->hash index, uncle index, tip, current epoch, per-block epoch records, epoch-number index, block ext incl. fees/sizes/accumulated difficulty, MMR nodes) are dumped raw and compared in both directions with a replay of the model's main chain.",
                 note=CHAIN_NOTE),
-    "C19": dict(engine="chain", category="exploration", design="4/C19",
-                technique="runtime monitoring: own MMR model vs committed roots on every fork; proofs from the node verified against committed and rival roots",
-                text="For every generated block on every fork the committed chain root is compared with the harness's own MMR over the ancestors' digests; after every delivery run (i.e. after reorgs, incl. to shorter heavier branches) the root served by the node is checked to be the one the tip commits to, membership proofs for random position sets must verify against it and must not verify against the root of a competing fork; stored MMR nodes are compared with the model (shared with C02). Block-filter part: see engine filter.",
+    "C19": dict(engine="chain+filter", category="exploration", design="4/C19",
+                technique="runtime monitoring: own MMR model vs committed roots on every fork; proofs from the node verified against committed and rival roots; stored block filters decoded and matched against the model's scripts per main-chain block, with the builder thread held at hook points (H9) while reorgs are delivered",
+                text="For every generated block on every fork the committed chain root is compared with the harness's own MMR over the ancestors' digests; after every delivery run (i.e. after reorgs, incl. to shorter heavier branches) the root served by the node is checked to be the one the tip commits to, membership proofs for random position sets must verify against it and must not verify against the root of a competing fork; stored MMR nodes are compared with the model (shared with C02). Block-filter part (engine vfilter): the real BlockFilter builder runs after some operations only (backlogs, fork recovery) on a node that goes through real reorgs; for every main-chain block a filter must be stored, match blake2b(script) of every output lock/type and every spent-input lock/type (inputs from the model's replay of the parent plus same-block outputs), not match a control script, chain its hash to the parent's, and the latest-built marker must equal the tip; race episodes hold the builder between its snapshot and a block build while a heavier branch is delivered and later abandoned again.",
                 note=CHAIN_NOTE),
     "C20": dict(engine="chain", category="exploration", design="4/C20",
                 technique="runtime monitoring: proposal view of every published snapshot (hook H3) vs own window arithmetic",
@@ -72,7 +72,7 @@ CHECKS.update({
                 note="Trusted: Python hashlib.blake2b; the .mol schema files as the specification of the encodings."),
     "C16": dict(engine="codec-hostile", category="exploration", design="4/C16",
                 technique="runtime monitoring: hostile byte strings through decoders and every accessor/verifier under catch_unwind in child processes; libFuzzer+ASan and Miri in the thorough tier",
-                text="Random bytes and well-formedness-keeping/-breaking mutations of valid messages for every protocol and consensus type go through from_slice/from_compatible_slice, and on success through every accessor, conversion, hash and context-free verifier behind the node's own guards; panics, aborts (child processes, bisected) and super-linear time are the refuting events; compress/decompress frames incl. oversized declarations. Thorough adds 7 libFuzzer+ASan targets and a Miri pass. Part (c) (block reconstruction) is served by engine relay when present.",
+                text="Random bytes and well-formedness-keeping/-breaking mutations of valid messages for every protocol and consensus type go through from_slice/from_compatible_slice, and on success through every accessor, conversion, hash and context-free verifier behind the node's own guards; panics, aborts (child processes, bisected) and super-linear time are the refuting events; compress/decompress frames incl. oversized declarations. Thorough adds 7 libFuzzer+ASan targets and a Miri pass. Part (c), engine vrelay: against a real node with Relayer, random pool subsets, arbitrary prefilled sets and 27 tamper kinds (short ids incl. simulated collisions, prefilled entries, uncles, proposals, extension), random received transactions / uncles; reconstruct_block (behind the node's CompactBlockVerifier) may only return a block whose header is byte-identical to the announced one and whose transactions root, proposals hash and extra hash recomputed by the harness equal the header's; Missing must equal the model's index sets; honest compact blocks reconstruct byte-identically; message-level episodes through Relayer::received must never panic the handler nor make an unannounced block the tip.",
                 note="Trusted: the harness replicates the synchronizer/relayer guards (extra-field count, BlockV1 validity, check_data) before the calls the node makes next. MAX_UNCOMPRESSED_LEN hard-coded (private constant)."),
     "C17": dict(engine="structs", category="exploration", design="4/C17",
                 technique="runtime monitoring: bounded-exhaustive and random op sequences against reference models; Wing-Gong linearizability check of concurrent HeaderMap histories with delays at hook points",
